@@ -206,6 +206,8 @@ func (c *specCtx) bin(x *SExpr) Value {
 			eq = Eq(l.T, r.T)
 		case l.K == VSlice && r.K == VSlice:
 			eq = And(Eq(l.Ref, r.Ref), Eq(l.Off, r.Off), Eq(l.Len, r.Len), Eq(l.Cap, r.Cap))
+		case l.K == VStr && r.K == VStr:
+			eq = App("streq", SBool, l.Arr, l.Off, l.Len, r.Arr, r.Off, r.Len)
 		case l.K == VU && r.K == VStr, l.K == VStr && r.K == VU:
 			// an interface value against a string: it holds (the boxing of) that very string
 			eq = Eq(c.e.box(l), c.e.box(r))
@@ -493,6 +495,17 @@ func (c *specCtx) call(x *SExpr) Value {
 		v := c.tr(x.Args[0])
 		if x.Args[1].Kind == "str" && v.K == VU {
 			return boolV(App("hasType$"+x.Args[1].Name, SBool, v.T))
+		}
+	case "real", "imag":
+		if len(x.Args) == 1 {
+			if v := c.tr(x.Args[0]); v.K == VU {
+				return uV(App("cplx$"+x.Name, SU, v.T))
+			}
+		}
+	case "feq":
+		// IEEE equality of two floating-point values (the == of the language on floats)
+		if len(x.Args) == 2 {
+			return boolV(App("feq", SBool, e.box(c.tr(x.Args[0])), e.box(c.tr(x.Args[1]))))
 		}
 	case "isnil":
 		v := c.tr(x.Args[0])
